@@ -167,6 +167,9 @@ impl World {
 pub struct Net {
     pub m: Mutex<World>,
     pub cv: Condvar,
+    /// copy of `World::now` readable without a scheduling point (simulated `Instant::now()` is
+    /// called by served code while it holds its own std locks)
+    pub now_mirror: std::sync::atomic::AtomicU64,
 }
 pub type NetRef = Arc<Net>;
 
@@ -174,6 +177,7 @@ pub fn new_net() -> NetRef {
     Arc::new(Net {
         m: Mutex::new(World::default()),
         cv: Condvar::new(),
+        now_mirror: std::sync::atomic::AtomicU64::new(0),
     })
 }
 
@@ -676,6 +680,7 @@ impl Net {
         let mut w = self.lock();
         if to > w.now {
             w.now = to;
+            self.now_mirror.store(to, std::sync::atomic::Ordering::SeqCst);
             w.cnt.clock_jumps += 1;
             if busy {
                 w.cnt.clock_jumps_while_busy += 1;
